@@ -33,7 +33,7 @@ pub fn families(tier: Tier) -> Vec<Family> {
         Family { menu: Menu::ClientArgs, k: tier.pick(3, 4) },
         Family { menu: Menu::Decls, k: 1 },
         Family { menu: Menu::Schemas, k: 1 },
-        Family { menu: Menu::DemoMutations, k: tier.pick(1, 3) },
+        Family { menu: Menu::DemoMutations, k: tier.pick(2, 3) },
         Family { menu: Menu::Pointers, k: tier.pick(3, 4) },
         Family { menu: Menu::Overlap, k: tier.pick(2, 3) },
     ]
